@@ -298,6 +298,27 @@ func eval(c Case, sandbox string) hx.Result {
 		if len(cr)+len(ch)+len(de) != 0 {
 			return fail("remove-of-absent-changed-something", fmt.Sprint(cr, ch, de), nil, nil)
 		}
+		// the name is free again: writing the very Spec the cache loaded from it earlier (no refresh
+		// since the removal) must create the file anew - and once more after the file was replaced
+		// behind the cache's back by other content
+		for round, prep := range []func(){func() {}, func() { _ = os.WriteFile(target, []byte("replaced by someone else"), 0o644) }} {
+			prep()
+			mid = snapshot(sandbox)
+			if err := cache.WriteSpec(rawSpec(c.Kind, "new"), name); err != nil {
+				return fail("write-after-remove-fails", "WriteSpec of the Spec written first, after its removal, failed: "+err.Error(), nil, nil)
+			}
+			cr, ch, de = diff(mid, snapshot(sandbox))
+			touched := append(append([]string{}, cr...), ch...)
+			if len(de) != 0 || len(touched) != 1 || touched[0] != relTarget {
+				return fail(fmt.Sprintf("write-of-the-spec-loaded-earlier-does-not-produce-the-file:round%d", round), fmt.Sprintf("WriteSpec (same Spec as loaded from this name before) created %v changed %v deleted %v, model: exactly %s", cr, ch, de, relTarget), relTarget, []any{cr, ch, de})
+			}
+			if back, rerr := cdi.ReadSpec(target, 0); rerr != nil || len(back.Devices) == 0 || back.Devices[0].ContainerEdits.Env[0] != "SRC=new" {
+				return fail("write-of-the-spec-loaded-earlier-wrong-content", "the file does not hold the Spec just written", nil, nil)
+			}
+		}
+		if err := cache.RemoveSpec(name); err != nil {
+			return fail("remove-fails", "final RemoveSpec failed: "+err.Error(), nil, nil)
+		}
 		enc := "yaml"
 		if isJSON {
 			enc = "json"
@@ -382,7 +403,7 @@ func main() {
 		}
 	}
 	r.Rule = fmt.Sprintf("%d Spec kinds (dots in vendor/class, classes ending in .json/.yaml, one-letter) x transient ids = every string of 0..%d tokens over %q (plus the non-transient name) x %d directory configurations (1-3 directories, last present / missing / nested missing / non-clean / repeated) x decoys (same name in lower directories, siblings, old file at the target, neighbours named after the target: other extension, no extension, .bak/.tmp/hidden) x both name APIs, and (non-transient names and ids of <=1 byte) on a cache with a past: created for other directories, used to write and remove a Spec there, then reconfigured; "+
-		"sequence per case: WriteSpec, Refresh+GetDevice, WriteSpec again, RemoveSpec, RemoveSpec again, with a snapshot (paths, types, content hashes) of a sandbox three levels above the Spec directories before and after every step. "+
+		"sequence per case: WriteSpec, Refresh+GetDevice, WriteSpec again, RemoveSpec, RemoveSpec again, WriteSpec of the first Spec again (twice: name free, file replaced by someone else), RemoveSpec, with a snapshot (paths, types, content hashes) of a sandbox three levels above the Spec directories before and after every step. "+
 		"Oracle: name is one path component; exactly one file created/replaced at the model path with the model encoding; top precedence after refresh; remove deletes exactly that file; removing an absent name succeeds. Distinct by construction; all non-trivial",
 		len(kindsUnderTest), maxTok, idTokens, len(dirConfigs))
 	r.Assumptions = []string{"a name containing NUL cannot be stored by any file system: there the write must fail and must not touch any file"}
